@@ -210,7 +210,9 @@ class relativedelta(object):
                 yday = nlyearday
             elif yearday:
                 yday = yearday
-                if yearday > 59:
+                if 59 < yearday < 366:
+                    # Day 366 only exists in leap years, where it is 31 Dec
+                    # itself: it must not be moved back by the leap day
                     self.leapdays = -1
             if yday:
                 ydayidx = [31, 59, 90, 120, 151, 181, 212,
